@@ -642,11 +642,6 @@ def work_parse(shard):
     return part
 
 
-def hash_free_pick(text):
-    """Deterministic thinning for the quick tier (no hash(): fixed arithmetic on the characters)."""
-    return sum(text.encode('ascii')) % 3 != 0
-
-
 def _literal_from_program(s):
     """Token and value of the literal in line 1 'X#=<literal>' of the session's program."""
     code = bytes(s._impl.program.bytecode.getvalue())
@@ -668,9 +663,9 @@ def work_literal(shard):
     s = H.new_session(horizon=100)
     vals = num.make_values()
     try:
-        for text in gen_parse_texts(tier, lo, hi, reduced=(tier == 'quick')):
-            if tier == 'quick' and 2 < len(text.strip('+-.0 ')) < 6 and hash_free_pick(text):
-                continue        # quick tier: one third of the 3-digit strings
+        for idx, text in enumerate(gen_parse_texts(tier, lo, hi, reduced=(tier == 'quick'))):
+            if tier == 'quick' and idx % 3 != lo % 3:
+                continue        # quick tier: every third text of the enumeration (fixed, no sampling)
             if text.endswith('E') or text.endswith('E 5') or text[0] == '+':
                 continue        # tokeniser-specific lexing (E followed by blank/nothing): not a literal question
             tb = text.encode('ascii')
@@ -922,7 +917,7 @@ def legs(ctx):
     lds = nds if not ctx.quick else nds
     lstep = 3 if ctx.quick else 2
     out.append(Leg('literal', [(tier, lo, min(lo + lstep, lds)) for lo in range(0, lds, lstep)], work_literal, exhaustive=True,
-                   bound='the same texts as program literals through the tokeniser (quick: reduced exponent set)'))
+                   bound='the same texts as program literals through the tokeniser (quick: reduced exponent set, every third text)'))
     nv, ntx = len(_stmt_values()), len(_stmt_texts())
     shards = [('print', c) for c in chunked(range(nv), 12)] + [('read', c) for c in chunked(range(ntx), 4)]
     out.append(Leg('stmt', shards, work_stmt, exhaustive=True,
